@@ -198,6 +198,25 @@ def _cli_damage(ck, T):
         shutil.rmtree(root, ignore_errors=True)
 
 
+def _chunk_header_fields(ck):
+    """KzChunkHeader.tla: the fixed-width fields of a chunk header for every log range the constructors accept. The repaired code (log
+    range capped at 15) satisfies FieldsFit and Mirror; the as-found constructors (F26 / F27) and the field width of seed C12ag
+    must violate them, otherwise the model does not see what it is there for."""
+    def run(cap, llr):
+        c = ('CONSTANTS\n Accepted = {8, 9, 10, 11, 12, 13, 14, 15, 16}\n Cap = "%s"\n Llr = "%s"\nSPECIFICATION Spec\nINVARIANTS FieldsFit Mirror\n'
+             'CHECK_DEADLOCK FALSE\n') % (cap, llr)
+        return kzv.tlc('KzChunkHeader', c, workers=1, timeout=600)
+    res = run('capped', 'loop')
+    ck.add_tlc(res, 'KzChunkHeader capped loop')
+    if not res.ok:
+        raise kzv.ToolFailure('KzChunkHeader fails its own check: ' + res.out[-2000:])
+    for cap, llr in (('asfound', 'loop'), ('capped', 'len1')):
+        r2 = run(cap, llr)
+        ck.cov.setdefault('selftest_chunk_header', {})['%s/%s' % (cap, llr)] = {'violated': r2.violated}
+        if not r2.violated:
+            raise kzv.ToolFailure('vacuity self-test: KzChunkHeader %s/%s violates nothing' % (cap, llr))
+
+
 # ------------------------------------------------------------------------------------------------
 LEVEL['C09'] = 'model_checking'
 
@@ -1102,6 +1121,7 @@ def C12(ck):
             if not res.violated:
                 raise kzv.ToolFailure('vacuity self-test: as-is tables always agree')
     _alphabet_header(ck, T)
+    _chunk_header_fields(ck)
     # (b) the real codecs on the case space, judged by Trace_Entropy
     kzh = kzv.build_harness()
     base = os.path.join(kzv.BUILD, 'tlc', 'ent_%d' % os.getpid())
